@@ -6,7 +6,7 @@ from .common import TRUSTED, ASSUMPTIONS, default_nontrivial, LEVEL_NOTE, TECHNI
 from .C08 import table
 
 LEVEL = "proof"
-THEOREMS = []
+THEOREMS = ['C15_projection','C15_maxUncertainty','C15_uncertaintyMaximized','C15_discount','C15_fuse','C15_mbr','C15_deduceOf','C15_deduce','C15_deduceWith','C15_inverse','C15_abduceWith','C15_abduce','C15_product2Raw','C15_product2U','C15_product2L','C15_product3Raw','C15_mergeCond2_ok','C15_mergeCond2_labelled']
 RULE = ("fuse, discount, proj, umax, mbr, deduce_with, inverse, abduce_with, prod2, prod3, merge on well-formed dyadic operands; every "
         "case is re-run with the value order of each variable permuted consistently in all operands, for ALL permutations of domains of "
         "size 2..4 in thorough (a sample of 6 per case in quick), independently per variable; asymmetric shapes (|X| != |Y|, 2x3, 3x2) "
